@@ -27,7 +27,7 @@ RULE = ('cases = AE configuration (every subset of 2 served SOP classes x every 
         'parsed by R-codec + a probe message on every accepted context + a probe association '
         'for refused/unknown ids; non-trivial = at least one context refused or several TS; '
         'distinct = distinct (configuration, request)'
-        '; hot family: 2-3 requestors negotiating with a fresh entity at once under line-level pre-emption, each using its first accepted context immediately with a file-backed C-STORE; re-proposal of an accepted id for an unserved class in a second association; late_add: classes configured between connect and request')
+        '; hot family: 2-3 requestors negotiating with a fresh entity at once under line-level pre-emption, each using its first accepted context immediately with a file-backed C-STORE; re-proposal of an accepted id for an unserved class in a second association; late_add: classes configured between connect and request; readd: a third of the hot cases with another thread applying the same configuration again (add_scp) while the requestors negotiate')
 ASSUMPTIONS = ['result code of a refused context is only required to be non-zero',
                'the probe on a refused id may end the association in any way; the requirement is '
                'that no service callable runs']
@@ -82,8 +82,11 @@ def cases(tier, seed):
         for _ in range(rh.choice([2, 3, 3])):
             ids = rh.sample(range(1, 64, 2), rh.choice([1, 2, 4, 8]))
             reqs.append([[pid, rh.randrange(3), rh.choice(lists)] for pid in ids])
+        # readd: meanwhile another thread applies the entity's configuration again (add_scp of
+        # the service it already has): nothing that is served before and after the call may be
+        # refused, or left without its service, while the call runs
         yield dict(hot=True, served=served, sup=sup, reqs=reqs, ctx=reqs[0],
-                   seed=seed * 100151 + i)
+                   seed=seed * 100151 + i, readd=i % 3 == 1)
     n = 700 if tier == 'quick' else 20000
     for i in range(n):
         served, sup = rnd.choice(cfgs)
@@ -163,6 +166,14 @@ def _hot_case(case):
                                 funcs={'accept'},
                                 files=('applicationentity.py', 'asceprovider.py'))
         pre.install()
+        if case.get('readd'):
+            # (started after install(): only threads started under the trace hook are pre-empted)
+            def reconf():
+                for _ in range(12):
+                    ae.add_scp(sentinel)
+                    world.sim.bump('probe.configuration_applied_again_while_negotiating')
+                    world.sim.sleep(0.013)
+            world.spawn(reconf, 'reconf', role='user')
         try:
             world.run(tmax=300)
             world.drain(1.0)
